@@ -173,6 +173,37 @@ def spawn_workers(pid: str, tier: str, camp: Campaign, workdir: str) -> List[Dic
     return results
 
 
+def run_fuzz(pid: str, camp: Campaign, workdir: str, seed: int) -> Dict[str, Any]:
+    """Run the campaign's strategy + oracle under libFuzzer in 8 processes; merge their reports."""
+    nproc = 8
+    env = dict(os.environ)
+    env["PYTHONHASHSEED"] = "0"
+    deps = os.path.join(VERIF_ROOT, ".deps")
+    env["PYTHONPATH"] = os.pathsep.join([VERIF_ROOT, deps, env.get("PYTHONPATH", "")])
+    env.setdefault("HV_TMP", os.path.join(workdir, "tmp"))
+    procs = []
+    for k in range(nproc):
+        out = os.path.join(workdir, f"fuzz-{camp.name}-{k}.json")
+        corpus = os.path.join(workdir, f"corpus-{camp.name}-{k}")
+        s = derive_seed(seed, pid, camp.name, "fuzz", k) % (2**31 - 1) + 1
+        log = open(os.path.join(workdir, f"fuzz-{camp.name}-{k}.log"), "w")
+        procs.append((out, subprocess.Popen(
+            [PY, "-m", "hv.fuzz", pid, camp.name, out, corpus, f"-runs={max(1, camp.fuzz_runs // nproc)}", f"-seed={s}", "-max_len=4096",
+             "-len_control=0", "-timeout=120", "-rss_limit_mb=4096"], cwd=VERIF_ROOT, env=env, stdout=log, stderr=subprocess.STDOUT)))
+    merged: Dict[str, Any] = {"executions": 0, "nontrivial": 0, "processes": nproc, "failure": None, "engine": "unavailable"}
+    for out, p in procs:
+        p.wait()
+        if os.path.exists(out):
+            r = json.load(open(out))
+            merged["executions"] += r.get("executions", 0)
+            merged["nontrivial"] += r.get("nontrivial", 0)
+            if r.get("atheris") == "ok":
+                merged["engine"] = "atheris/libFuzzer"
+            if r.get("failure") and merged["failure"] is None:
+                merged["failure"] = r["failure"]
+    return merged
+
+
 def write_failure(pid: str, camp_name: str, failure: Dict[str, Any]) -> str:
     d = os.environ.get("HV_FAILURES_DIR") or os.path.join(VERIF_ROOT, "failures")
     os.makedirs(d, exist_ok=True)
@@ -266,6 +297,16 @@ def main(argv: Optional[List[str]] = None) -> int:
                 violations.append(rel)
                 print(f"VIOLATION property={pid} replay={rel}")
                 print(f"  check={best['check']} detail={str(best['detail'])[:800]}")
+            # ---- additive coverage-guided tier (Atheris / libFuzzer), thorough only ----
+            if a.tier == "thorough" and camp.fuzz_runs > 0 and not fails:
+                fz = run_fuzz(pid, camp, workdir, seed)
+                cov.setdefault("atheris", {})[camp.name] = {k: v for k, v in fz.items() if k != "failure"}
+                if fz.get("failure"):
+                    rel = write_failure(pid, camp.name, fz["failure"])
+                    violations.append(rel)
+                    print(f"VIOLATION property={pid} replay={rel}")
+                    print(f"  check={fz['failure']['check']} detail={str(fz['failure']['detail'])[:800]} (found by the libFuzzer tier)")
+                c_eval += fz.get("executions", 0)
             evaluations += c_eval
             classes.update(c_classes)
             nontrivial.update(f"{camp.name}:{h}" for h in c_nt)
